@@ -383,3 +383,38 @@ Proof. destruct (conv_block canon p ext); [left | right]; eauto. Qed.
 
 (* sets and maps of an accepted block are in BTreeSet / BTreeMap form: non-vacuity of [iterm_wf]
    is shown by examples in Properties/C02.v *)
+
+(* ------------------------------------------------------------------ snapshot blocks *)
+(* what proto_snapshot_block_to_token_block accepts declares a supported version that is at least
+   what its *content* requires; the 3.2 floor of third-party blocks is not part of this gate *)
+Theorem conv_snapshot_gate_sound canon p b ext :
+  conv_snapshot_block canon p = SOk b ext ->
+  3 <= ib_version b <= 6 /\
+  Schema.required (Schema.mkblock (map shape_fact (ib_facts b)) (map shape_rule (ib_rules b))
+                                  (map shape_check (ib_checks b)) (map shape_scope (ib_scopes b))
+                                  (ib_version b) false) <= ib_version b.
+Proof.
+  unfold conv_snapshot_block. cbv zeta.
+  set (v := match ps_version p with Some v => v | None => 0 end).
+  destruct ((Schema.MIN_SCHEMA_VERSION <=? v) && (v <=? Schema.MAX_SCHEMA_VERSION)) eqn:H1; cbn [negb]; [|discriminate].
+  destruct (conv_preds (ps_facts p)) as [facts|]; [|discriminate].
+  destruct (conv_rules v (ps_rules p)) as [rules|]; [|discriminate].
+  destruct ((v =? Schema.MIN_SCHEMA_VERSION) && _); [discriminate|].
+  destruct (conv_checks v (ps_checks p)) as [checks|]; [|discriminate].
+  destruct (conv_scopes (ps_scopes p)) as [scopes|]; [|discriminate].
+  destruct (Schema.check_compatibility Schema.repaired (shape_version facts rules checks scopes) v) eqn:H8; cbn [negb]; [|discriminate].
+  assert (G : 3 <= v <= 6 /\
+              Schema.required (Schema.mkblock (map shape_fact facts) (map shape_rule rules) (map shape_check checks)
+                                              (map shape_scope scopes) v false) <= v).
+  { apply andb_true_iff in H1 as [Ha Hb]. apply N.leb_le in Ha. apply N.leb_le in Hb.
+    unfold Schema.MIN_SCHEMA_VERSION in Ha. unfold Schema.MAX_SCHEMA_VERSION in Hb. split; [lia|].
+    rewrite SchemaProofs.required_level. cbn [Schema.bthird].
+    apply SchemaProofs.compat_repaired_iff in H8; [|exact Ha].
+    pose proof (SchemaProofs.detected_level (Schema.mkblock (map shape_fact facts) (map shape_rule rules)
+                 (map shape_check checks) (map shape_scope scopes) v false)) as Hd.
+    unfold Schema.detect in Hd. cbn [Schema.bfacts Schema.brules Schema.bchecks Schema.bscopes] in Hd.
+    unfold shape_version in H8. rewrite Hd in H8. lia. }
+  destruct (ps_external p) as [k|].
+  - destruct (conv_key_proto canon k) as [e|k']; [discriminate|]. intros H. injection H as <- <-. exact G.
+  - intros H. injection H as <- <-. exact G.
+Qed.
